@@ -802,3 +802,11 @@ Definition lstep (e : levent) (p : list action * list bool) : list action * list
 
 Definition lrun (es : list levent) (p : list action * list bool) : list action * list bool :=
   fold_left (fun q e => lstep e q) es p.
+
+(* the table a doc action is about (for RenameTable: the table being renamed) *)
+Definition action_table (a : action) : str :=
+  match a with
+  | AddRecord t _ _ | BulkAddRecord t _ _ | RemoveRecord t _ | BulkRemoveRecord t _ | UpdateRecord t _ _
+  | BulkUpdateRecord t _ _ | ReplaceTableData t _ _ | AddColumn t _ _ | RemoveColumn t _ | RenameColumn t _ _
+  | ModifyColumn t _ _ | AddTable t _ | RemoveTable t | RenameTable t _ => t
+  end.
